@@ -67,7 +67,7 @@ package render
 // A renderer only ever writes to the writer it is given (or to fresh capture buffers).
 //@ func functype func(io.Writer, render.Context) error
 //@ names w ctx
-//@ requires args: w != nil && ctx != nil
+//@ requires args: w != nil && ctx != nil && (is(w, *render.trimWriter) ==> valid(as(w, *render.trimWriter)))
 //@ assigns *
 //@ ensures onlyw: forall(x, "Val", x != w && x != wsink(w) && !newbuf(x) && !is(x, *render.trimWriter) ==> wtotal(x) == old(wtotal(x)))
 //@ ensures tree: @tree
@@ -118,7 +118,7 @@ package render
 
 // ---- rendererContext: the implementation of render.Context --------------------------
 // intag(ctx): the context belongs to a tag (not a block); RenderFile needs the tag's location.
-//@ typeinv render.rendererContext: intag(box(self, render.rendererContext)) == (self.node != nil) && self.ctx.bindings != nil && (self.node != nil ==> valid(self.node)) && (self.cn != nil ==> valid(self.cn))
+//@ typeinv render.rendererContext: self.ctx.bindings != nil && (self.node != nil ==> valid(self.node)) && (self.cn != nil ==> valid(self.cn))
 //@ typeinv render.nodeContext: self.bindings != nil
 
 //@ func (render.rendererContext).Bindings
